@@ -4,6 +4,8 @@ patch="$1"; shift
 cd /repo || exit 2
 if ! git diff --quiet; then echo "repo dirty"; exit 2; fi
 git apply "$patch" || { echo "patch does not apply"; exit 2; }
+# the evidence files committed under /verif describe the unchanged tree: keep them out of seed runs
+ev=$(mktemp -d) && cp -a /verif/evidence/. "$ev"/
 for p in "$@"; do
   out=$(/verif/bin/check "$p" --tier quick 2>&1); code=$?
   nv=$(echo "$out" | grep -c '^VIOLATION')
@@ -14,4 +16,6 @@ for p in "$@"; do
   done
 done
 git -C /repo checkout -- .
+rm -rf /verif/evidence && mkdir -p /verif/evidence && cp -a "$ev"/. /verif/evidence/ && rm -rf "$ev"
+rm -rf /verif/replays
 git -C /repo status --short | head -3
